@@ -408,18 +408,26 @@ func ConvertJsonValueToTv(d any, slt *sdcpb.SchemaLeafType) (*sdcpb.TypedValue, 
 			Value: &sdcpb.TypedValue_BoolVal{BoolVal: b},
 		}, nil
 	case "decimal64":
-		arr := strings.SplitN(d.(string), ".", 2)
-		digits, err := strconv.ParseInt(arr[0], 10, 64)
+		var sval string
+		switch v := d.(type) {
+		case string:
+			sval = v
+		case float64:
+			sval = strconv.FormatFloat(v, 'f', -1, 64)
+		case fmt.Stringer: // json.Number
+			sval = v.String()
+		default:
+			return nil, fmt.Errorf("error converting %v to decimal64", d)
+		}
+		d64, err := ParseDecimal64(sval)
 		if err != nil {
 			return nil, err
 		}
-		precision64, err := strconv.ParseUint(arr[1], 10, 32)
-		if err != nil {
-			return nil, err
+		if d64 == nil {
+			return nil, fmt.Errorf("invalid decimal64 value %q", sval)
 		}
-		precision := uint32(precision64)
 		return &sdcpb.TypedValue{
-			Value: &sdcpb.TypedValue_DecimalVal{DecimalVal: &sdcpb.Decimal64{Digits: digits, Precision: precision}},
+			Value: &sdcpb.TypedValue_DecimalVal{DecimalVal: d64},
 		}, nil
 	case "union":
 		for _, ut := range slt.GetUnionTypes() {
